@@ -153,6 +153,30 @@ pub(crate) fn release_without_free(a: &CaoLangAllocator, l: std::alloc::Layout) 
 // object. Pointers are checked against the object list BEFORE they are dereferenced, so freed
 // memory is never read.
 
+thread_local! {
+    static AUDIT_ON_GC: RefCell<bool> = const { RefCell::new(false) };
+    static AUDIT_FAILURES: RefCell<Vec<String>> = const { RefCell::new(Vec::new()) };
+}
+
+/// Audit the heap right after every collection (from inside the allocator) and remember failures
+pub fn audit_on_gc(on: bool) {
+    AUDIT_ON_GC.with(|a| *a.borrow_mut() = on);
+    AUDIT_FAILURES.with(|f| f.borrow_mut().clear());
+}
+
+pub fn take_audit_failures() -> Vec<String> {
+    AUDIT_FAILURES.with(|f| std::mem::take(&mut *f.borrow_mut()))
+}
+
+pub(crate) fn after_gc(rt: &RuntimeData) {
+    if AUDIT_ON_GC.with(|a| *a.borrow()) {
+        if let Err(e) = heap_audit(rt) {
+            let n = gc_count();
+            AUDIT_FAILURES.with(|f| f.borrow_mut().push(format!("after collection #{n}: {e}")));
+        }
+    }
+}
+
 #[derive(Debug, Clone, Default)]
 pub struct AuditStats {
     pub objects: usize,
